@@ -41,9 +41,9 @@ PROP = dict(
         "changes_refine_linked), so the three content assumptions are theorems: live = base overridden by pending minus tombstones "
         "(live_is_abs_linked: Buf.live of the abstraction = C09's TrieBuf.abs), add/update/remove act as Buf.add/put/remove and add is "
         "rejected exactly on a live phrase (C09's btGet_btInsert/btGet_btErase/contains_grave*/addOk_eq), entries() collected into a "
-        "TrieBuilder = live (snapshot_is_entries_linked = C09's snapshot lemma build_abs; holds in EVERY state incl. class UpdatePersisted "
-        "because entries() lists the persisted value first and TrieBuilder::insert replaces in place; snapshot_order_matters shows the "
-        "swapped order would write the stale value). durable_lookup_linked: after close under any schedule the file is a well-formed trie "
+        "TrieBuilder = live (snapshot_is_entries_linked = C09's snapshot lemma build_abs; holds in EVERY state: since the C09 fix for F10 "
+        "entries() lists a key that is both persisted and pending once, with the pending value; snapshot_order_irrelevant shows the "
+        "written value no longer depends on the chain order, while without that filter the swapped order would write the stale value). durable_lookup_linked: after close under any schedule the file is a well-formed trie "
         "holding exactly MapSpec's map of the calls made, and a TrieBuf opened on it answers lookup / entries / prefix lookup as that map "
         "(C09's lookup_agrees/entries_agrees/fuzzy_agrees on a settled state, no finding class). FILES ARE BYTES NOW: durable_lookup_bytes_linked "
         "(Proofs/DictLinkBytes.lean + C09.file_layer_is_C11): along every run every complete file (path, temp, writer output / re-opened "
@@ -100,7 +100,7 @@ MANIFEST = dict(
          "is self-contained (contents are maps key -> value, live = base overridden by pending minus tombstones, the snapshot is the live "
          "contents); these assumptions are DISCHARGED by the linked theorems: Proofs/DictLink.lean runs the same protocol over C09's concrete "
          "TrieBuf model and proves a forward simulation (live_is_abs_linked, changes_refine_linked, snapshot_is_entries_linked = C09's "
-         "build_abs, valid also in class UpdatePersisted), giving durable_lookup_linked in C09's terms (file after close = MapSpec's map of "
+         "build_abs, valid in every state), giving durable_lookup_linked in C09's terms (file after close = MapSpec's map of "
          "the calls; the reopened TrieBuf answers as that map). The linked theorems use Classical.choice (to pick an abstract content "
          "representing the initial file). NO LONGER TRUSTED about contents: 'a complete file read back yields the leaves written' - "
          "durable_lookup_bytes_linked states the end-to-end result for the file as bytes read by C11's model of Trie::new / lookup / entries "
